@@ -2,8 +2,30 @@
 import ast
 from common import *
 import regex_tr
+import failclosed
+
+# Only single values of these functions are read (radix, factor, the re.sub arguments, the separator, the class tables); the rest of
+# their bodies is TRANSCRIBED by Model/C17.v.  failclosed pins that rest: one undecorated definition each, bound to its name at run
+# time, the statement skeleton the model was written from, every constant that is not read here (ANY = read and emitted below).
+_A = failclosed.ANY
+_FC = {'src': 'oslo_utils/versionutils.py', 'mod': 'oslo_utils.versionutils',
+       'imports': {'re': 're', 'operator': 'operator', 'functools': 'functools', 'packaging': 'packaging'}}
+FAILCLOSED = {
+    'generate': [dict(_FC, classes={'VersionPredicate': {'bases': [], 'methods': ['__init__', '_parse_predicate', 'satisfied_by']}},
+        functions={'convert_version_to_int': {'defaults': {}}, 'convert_version_to_str': {'defaults': {}},
+                   'convert_version_to_tuple': {'defaults': {}}, 'is_compatible': {'defaults': {'same_major': 'True'}},
+                   'VersionPredicate.__init__': {'defaults': {}}, 'VersionPredicate._parse_predicate': {'defaults': {}},
+                   'VersionPredicate.satisfied_by': {'defaults': {}}},
+        shapes={'convert_version_to_int': ('f25bab6a8e3fe1a8', [_A, _A]),
+                'convert_version_to_tuple': ('41667cea2dda967e', [_A, _A, _A]),
+                'is_compatible': ('535094073a24b473', [True, False]),
+                'VersionPredicate.__init__': ('c16e27520daa3494', [',']),
+                'VersionPredicate._parse_predicate': ('2b3d9a6b4d4649ae', [_A]),
+                'VersionPredicate.satisfied_by': ('b6a42fa6f990b983', [False, True])})],
+    'generate_code': [dict(_FC, functions={'convert_version_to_str': {'defaults': {}}})]}
 
 def generate():
+    failclosed.check_all(FAILCLOSED['generate'])
     m = repo_import('oslo_utils.versionutils')
     tree = repo_ast('oslo_utils/versionutils.py')
     # convert_version_to_int: the radix is the integer literal of the reduce lambda
@@ -64,6 +86,7 @@ def generate_code():
     """statement-level translation of convert_version_to_str"""
     import py2gal
     from py2gal import Fn
+    failclosed.check_all(FAILCLOSED['generate_code'])
     tree = repo_ast('oslo_utils/versionutils.py')
     try:
         body = py2gal.translate_function(
